@@ -360,3 +360,182 @@ Proof.
   destruct (step (p ++ q ++ tail) tok ls st) as [ls1 st1|x]; [apply IH|reflexivity].
 Qed.
 End Step.
+
+(** * the loop only hands over states with [flag_subcmd_skip = 0] *)
+Section Fs.
+Variable c : cmd.
+
+Lemma pov_fs idn att a he st st' pr : parse_opt_value c idn att a he st = ROk (st', pr) -> fs_skip st' = fs_skip st.
+Proof.
+  unfold parse_opt_value. destruct (a_req_eq a && negb he).
+  - destruct (a_num a) as [r|]; cbn [expect rbind]; [|discriminate].
+    destruct (vmin r =? 0).
+    + destruct (react c (Some idn) SCmdLine a [] None st) as [[s1 p1]|e s1|n] eqn:R; cbn [rbind]; try discriminate.
+      intros H; inversion H; subst. apply (react_fs _ _ _ _ _ _ _ _ _ R).
+    + intros H; inversion H; reflexivity.
+  - destruct att as [v|].
+    + destruct (react c (Some idn) SCmdLine a [v] None st) as [[s1 p1]|e s1|n] eqn:R; cbn [rbind]; try discriminate.
+      intros H; inversion H; subst. apply (react_fs _ _ _ _ _ _ _ _ _ R).
+    + destruct (resolve_pending c st) as [s1|e s1|n] eqn:R; cbn [rbind]; try discriminate.
+      destruct (pending_values_push (mt s1) (a_id a) (Some idn) false None) as [m|]; cbn [expect rbind]; try discriminate.
+      intros H; inversion H; subst. rewrite <- (SpellingLine.resolve_pending_fs c _ _ R). destruct s1; reflexivity.
+Qed.
+
+Lemma pla_fs f ok v pst pos vaf st st' pr w :
+  parse_long_arg c f ok v pst pos vaf st = ROk (st', pr, w) -> fs_skip st' = fs_skip st.
+Proof.
+  rewrite parse_long_arg_unfold.
+  destruct (state_arg c pst) as [sa|e s|n]; cbn [rbind]; try discriminate.
+  destruct (match sa with Some a => a_hyphen a | None => false end); [intros H; inversion H; reflexivity|].
+  destruct (negb ok); [intros H; inversion H; reflexivity|].
+  destruct (is_nil f && negb (is_some v)); [discriminate|].
+  unfold parse_long_found. destruct (lookup_long c f) as [a|].
+  - destruct (a_takes_value a).
+    + destruct (parse_opt_value c ILong v a (is_some v) st) as [[s1 p1]|e s1|n] eqn:R; cbn [rbind]; try discriminate.
+      intros H; inversion H; subst. apply (pov_fs _ _ _ _ _ _ _ R).
+    + destruct v as [rst|]; [intros H; inversion H; reflexivity|].
+      destruct (react c (Some ILong) SCmdLine a [] None st) as [[s1 p1]|e s1|n] eqn:R; cbn [rbind]; try discriminate.
+      intros H; inversion H; subst. apply (react_fs _ _ _ _ _ _ _ _ _ R).
+  - destruct (possible_long_flag_subcommand c f); [intros H; inversion H; reflexivity|].
+    destruct (match get_pos c pos with Some a => a_hyphen a && negb (a_last a) | None => false end);
+      intros H; inversion H; reflexivity.
+Qed.
+
+Lemma short_loop_fs : forall fuel r ret vaf st st' pr w,
+  short_loop c fuel r ret vaf st = ROk (st', pr, w) -> fs_skip st' = fs_skip st.
+Proof.
+  induction fuel as [|f IH]; intros r ret vaf st st' pr w; [discriminate|]. cbn [short_loop].
+  destruct (sf_next r) as [[[ch|rst] r']|]; try (intros H; inversion H; reflexivity).
+  destruct (get_short c ch) as [a|].
+  - destruct (negb (a_takes_value a)).
+    + destruct (react c (Some IShort) SCmdLine a [] None st) as [[s1 p1]|e s1|n] eqn:R; cbn [rbind]; try discriminate.
+      cbn [fst snd]. intros H. rewrite (IH _ _ _ _ _ _ _ H). apply (react_fs _ _ _ _ _ _ _ _ _ R).
+    + destruct (match match r' with [] => None | _ => Some r' end with
+                | Some (61 :: v) => (Some v, true)
+                | _ => (match r' with [] => None | _ => Some r' end, false) end) as [val he].
+      destruct (parse_opt_value c IShort val a he st) as [[s1 p1]|e s1|n] eqn:R; cbn [rbind]; try discriminate.
+      cbn [fst snd]. pose proof (pov_fs _ _ _ _ _ _ _ R) as F1.
+      destruct p1; try (intros H; inversion H; subst; exact F1).
+      intros H. rewrite (IH _ _ _ _ _ _ _ H). exact F1.
+  - destruct (find_short_subcmd c ch) as [name|]; [|intros H; inversion H; reflexivity].
+    destruct (resolve_pending c st) as [s1|e s1|n] eqn:R; cbn [rbind]; try discriminate.
+    intros H; inversion H; subst. rewrite <- (SpellingLine.resolve_pending_fs c _ _ R). destruct s1; reflexivity.
+Qed.
+
+Lemma psa_fs r pst pos vaf st st' pr w : fs_skip st = 0 ->
+  parse_short_arg c r pst pos vaf st = ROk (st', pr, w) -> fs_skip st' = 0.
+Proof.
+  intros F. unfold parse_short_arg.
+  destruct (state_arg c pst) as [sa|e s|n]; cbn [rbind]; try discriminate.
+  destruct (match sa with Some a => a_hyphen a || (a_negnum a && sf_is_negative_number r) | None => false end);
+    [intros H; inversion H; subst; exact F|].
+  destruct (match get_pos c pos with Some a => a_negnum a | None => false end && sf_is_negative_number r);
+    [intros H; inversion H; subst; exact F|].
+  destruct (match get_pos c pos with Some a => a_hyphen a && negb (a_last a) | None => false end
+            && sf_any_unknown c (S (length r)) r); [intros H; inversion H; subst; exact F|].
+  destruct (sf_advance_by _ r) as [r0|]; cbn [expect rbind]; [|discriminate].
+  intros H. rewrite (short_loop_fs _ _ _ _ _ _ _ _ H). destruct st; reflexivity.
+Qed.
+
+Definition p1_fs (p : res (option sres * lstate * ps)) : Prop :=
+  match p with
+  | ROk (None, _, s) => fs_skip s = 0
+  | ROk (Some (SGo _ s1), _, _) => fs_skip s1 = 0
+  | _ => True
+  end.
+
+Lemma after_flag_fs ls st1 pr w : fs_skip st1 = 0 -> p1_fs (after_flag_s c ls (st1, pr, w)).
+Proof.
+  intros F. unfold after_flag_s. destruct pr; cbn [p1_fs]; auto;
+    destruct (resolve_pending_ignore c st1) as [s2|e s2|n]; cbn [rbind p1_fs]; auto.
+Qed.
+
+Lemma after_short_fs ls st1 pr w : fs_skip st1 = 0 -> p1_fs (after_short_s c ls (st1, pr, w)).
+Proof.
+  intros F. unfold after_short_s. destruct pr; try (apply after_flag_fs; exact F); cbn [p1_fs]; auto.
+  destruct (fs_at st1) as [a|]; cbn [p1_fs]; auto.
+  destruct (checked_sub (cur_idx st1) a); cbn [expect rbind p1_fs]; auto.
+Qed.
+
+Lemma classify_fs tok ls st : fs_skip st = 0 -> p1_fs (classify_s c tok ls st).
+Proof.
+  intros F. unfold classify_s. destruct (is_escape tok).
+  - destruct (state_arg c (l_pst ls)) as [sa|e s|n]; cbn [rbind p1_fs]; auto.
+    destruct (match sa with Some a => a_hyphen a | None => false end); cbn [p1_fs]; [exact F|].
+    destruct st; exact F.
+  - destruct (to_long tok) as [[[f ok] v]|].
+    + destruct (parse_long_arg c f ok v (l_pst ls) (l_pos ls) (l_vaf ls) st) as [[[s1 pr] w]|e s|n] eqn:R;
+        cbn [rbind p1_fs]; auto.
+      pose proof (pla_fs _ _ _ _ _ _ _ _ _ _ R) as F1. rewrite F in F1. cbn [fst snd].
+      destruct pr; try (apply after_flag_fs; exact F1). cbn [p1_fs]. auto.
+    + destruct (to_short tok) as [r|]; [|exact F].
+      destruct (parse_short_arg c r (l_pst ls) (l_pos ls) (l_vaf ls) st) as [[[s1 pr] w]|e s|n] eqn:R;
+        cbn [rbind p1_fs]; auto.
+      apply after_short_fs. apply (psa_fs _ _ _ _ _ _ _ _ F R).
+Qed.
+
+Lemma phase1_fs tok ls st : fs_skip st = 0 -> p1_fs (phase1_s c tok ls st).
+Proof.
+  intros F. unfold phase1_s. destruct (l_trailing ls); [exact F|]. cbv zeta.
+  destruct (if is_set s_sub_precedence c || match l_pst ls with PSValuesDone => true | _ => false end
+            then possible_subcommand c tok (l_vaf ls) else None) as [sc|].
+  - destruct (beq sc s_help && negb (is_set s_disable_help_sub c)); cbn [p1_fs]; auto.
+  - apply classify_fs. exact F.
+Qed.
+
+Definition s_fs (s : sres) : Prop := match s with SGo _ s1 => fs_skip s1 = 0 | SExit _ => True end.
+
+Lemma positional_fs pcf tok ls st : fs_skip st = 0 -> s_fs (positional_s c pcf tok ls st).
+Proof.
+  intros F. unfold positional_s. destruct (pcf ls) as [pc'|e s|n]; cbn [sbind s_fs]; auto.
+  destruct (get_pos c pc') as [a|].
+  - destruct (a_last a && negb (l_trailing ls)).
+    + destruct (resolve_pending_ignore c st); cbn [sbind s_fs]; auto.
+    + cbv zeta.
+      assert (K : forall s1, fs_skip s1 = 0 ->
+        s_fs (if check_terminator a tok then SGo (mkL PSValuesDone (pc' + 1) true (l_trailing ls || a_tva a)) s1
+              else sbind (expect 415 (pending_values_push (mt s1) (a_id a) (Some IIndex) (l_trailing ls || a_tva a) (Some tok)))
+                     (fun m1 => if negb (a_is_multiple a)
+                                then SGo (mkL PSValuesDone (pc' + 1) true (l_trailing ls || a_tva a)) (s1 <| mt := m1 |>)
+                                else SGo (mkL (PSPos (a_id a)) pc' true (l_trailing ls || a_tva a)) (s1 <| mt := m1 |>)))).
+      { intros s1 F1. destruct (check_terminator a tok); [exact F1|].
+        destruct (pending_values_push _ _ _ _ _) as [m1|]; cbn [expect sbind s_fs]; auto.
+        destruct (negb (a_is_multiple a)); cbn [s_fs]; destruct s1; exact F1. }
+      destruct (negb (match pending_arg_id (mt st) with Some i => beq i (a_id a) | None => false end)
+                || negb (a_multiple_values a)).
+      * destruct (resolve_pending c st) as [s1|e s|n] eqn:R; cbn [sbind s_fs]; auto.
+        apply K. rewrite (SpellingLine.resolve_pending_fs c _ _ R). exact F.
+      * cbn [sbind]. apply K. exact F.
+  - destruct (is_set s_allow_external c).
+    + destruct (utf8_valid tok); [cbn [s_fs]; auto|]. destruct (resolve_pending_ignore c st); cbn [sbind s_fs]; auto.
+    + destruct (resolve_pending_ignore c st); cbn [sbind s_fs]; auto.
+Qed.
+
+Lemma phase2_fs pcf tok ls st : fs_skip st = 0 -> s_fs (phase2_s c pcf tok ls st).
+Proof.
+  intros F. unfold phase2_s.
+  destruct (if l_trailing ls then PSValuesDone else l_pst ls) as [|i|i]; try (apply positional_fs; exact F).
+  destruct (find_arg c i) as [a|]; cbn [expect sbind s_fs]; auto.
+  destruct (check_terminator a tok); [exact F|].
+  destruct (pending_values_push (mt st) i None false (Some tok)) as [m1|]; cbn [expect sbind s_fs]; auto.
+  destruct (needs_more_vals m1 a) as [more|]; cbn [expect sbind s_fs]; auto.
+Qed.
+
+(** one iteration from a state with [flag_subcmd_skip = 0] hands over a state with [flag_subcmd_skip = 0] *)
+Theorem step_fs rest tok ls st ls1 st1 : fs_skip st = 0 -> step c rest tok ls st = SGo ls1 st1 -> fs_skip st1 = 0.
+Proof.
+  intros F. unfold step, step_with, finish_s. pose proof (phase1_fs tok ls st F) as P.
+  destruct (phase1_s c tok ls st) as [[[early l] s]|e s|n]; cbn [sbind]; try discriminate.
+  destruct early as [r|].
+  - cbn [p1_fs] in P. intros H. subst r. exact P.
+  - cbn [p1_fs] in P. intros H. pose proof (phase2_fs (pos_counter c rest) tok l s P) as Q. rewrite H in Q. exact Q.
+Qed.
+
+Theorem run_fs : forall pre tail ls st ls' st', fs_skip st = 0 -> run c pre tail ls st = inl (ls', st') -> fs_skip st' = 0.
+Proof.
+  induction pre as [|tok pre IH]; intros tail ls st ls' st' F; cbn [run].
+  - intros H; inversion H; subst. exact F.
+  - destruct (step c (pre ++ tail) tok ls st) as [l1 s1|x] eqn:S1; [|discriminate].
+    apply IH. apply (step_fs _ _ _ _ _ _ F S1).
+Qed.
+End Fs.
